@@ -50,15 +50,21 @@ Proof.
   { intros p. destruct (memb (idf p) a); [apply Pres_ret|apply Pres_raise]. }
   apply Pres_bind; [apply Pres_gets|]. intros [[[cls| |] attrs]|]; [| |apply Pres_ret|apply Pres_raise].
   - apply Pres_bind. { destruct (dthaws cfg); [apply Pres_unfreeze|apply Pres_ret]. } intros _.
-    apply Pres_bind. { apply Pres_mapM. intros [k v]. simpl. destruct v; try apply Pres_ret. apply Hneed. } intros _.
+    apply Pres_bind; [apply Coh_Pres, Coh_call_direct|]. intros pc.
+    apply Pres_bind; [apply Coh_Pres, Coh_as_list|]. intros pl.
+    apply Pres_bind. { apply Pres_mapM. intros it. apply Hneed. } intros _.
+    apply Pres_bind; [apply Coh_Pres, Coh_call_direct|]. intros tc.
+    apply Pres_bind; [apply Coh_Pres, Coh_as_list|]. intros tl.
     apply Pres_bind.
-    { apply Pres_mapM. intros [k v]. simpl. destruct v as [p|c|c]; try apply Pres_ret.
-      apply Pres_bind; [apply Pres_gets|]. intros [[[cc| |] tattrs]|]; try apply Pres_ret.
+    { apply Pres_mapM. intros it. apply Pres_bind; [apply Pres_gets|]. intros [[kk tattrs]|]; [|apply Pres_ret].
       apply Pres_bind; [|intros; apply Pres_ret].
       apply Pres_mapM. intros [mk mv]. simpl. destruct mv; try apply Pres_ret. apply Hneed. }
-    intros _. apply Pres_bind; [|intros; apply Pres_ret].
-    apply Pres_mapM. intros [k v]. simpl. destruct v as [p|c|c]; try apply Pres_ret.
-    apply Pres_bind; [apply Pres_gets|]. intros [|]; [apply IH|apply Pres_ret].
+    intros _.
+    apply Pres_bind; [apply Coh_Pres, Coh_call_direct|]. intros fc.
+    apply Pres_bind; [apply Coh_Pres, Coh_as_list|]. intros _.
+    apply Pres_bind; [apply Coh_Pres, Coh_call_direct|]. intros mc.
+    apply Pres_bind; [apply Coh_Pres, Coh_as_list|]. intros ml.
+    apply Pres_bind; [|intros; apply Pres_ret]. apply Pres_mapM. intros it. apply IH.
   - apply Pres_bind; [|intros; apply Pres_ret].
     apply Pres_mapM. intros [k v]. simpl. destruct v as [p|c|c]; [apply Hneed|apply Pres_ret|].
     apply Pres_bind; [apply Pres_gets|]. intros [|]; [apply IH|apply Pres_ret].
